@@ -855,7 +855,7 @@ def deep_failures(res):
 
 
 def run(res):
-    res.proof_step('Props/C02.v', extra_targets=['Model/Reassembly.vo', 'Model/Pool.vo'], kernels_needed=['K_reassembly'])
+    res.proof_step('Props/C02.v', extra_targets=['Model/Reassembly.vo', 'Model/Pool.vo', 'Model/PoolParts.vo'], kernels_needed=['K_reassembly'])
     n = 600 if res.tier == 'quick' else 20000
     if res.broken:
         n = max(n, 5000)      # failing-input search
@@ -867,6 +867,9 @@ def run(res):
                   focus={'map': 7, 'imap': 9, 'imapu': 6, 'feed': 12, 'ready': 12, 'ack': 6, 'next': 9, 'apply': 2,
                          'exit': 1, 'tick': 2, 'scan': 0.5, 'scan_block': 0.3, 'advance': 2, 'advance_deadline': 1,
                          'terminate_job': 0.3, 'grow': 0.2, 'shrink': 0.2, 'close': 0.2})
+    # the crash-free closed system for multi-part jobs (Model/PoolParts.v): random closed schedules of submissions,
+    # feeds, workers, results and next() calls on the real parent-side code, against the model and the sequential results
+    pc.parts_closed_check(res, 'C02', 60 if res.tier == 'quick' else 1200)
     deep_failures(res)
     if res.tier != 'quick':
         real_pools(res)
